@@ -72,6 +72,17 @@ def extract(repo):
     happy = strip_comments(read(repo, "src/happy.rs"))
     m = need(re.search(r"const\s+RACE_DELAY\s*:\s*Duration\s*=\s*Duration::from_millis\(\s*([^)]+)\)\s*;", happy), "RACE_DELAY")
     c["raceDelayMs"] = eval_int(m.group(1))
+    # --- capacity of the BufReader in front of the connection (a parameter of the model)
+    pr = fn_body(resp, "parse_response")
+    m = re.search(r"BufReader::with_capacity\(\s*([^,]+),", pr)
+    if m:
+        c["bufReaderCap"] = eval_int(m.group(1))
+    else:
+        need(re.search(r"BufReader::new\(", pr), "BufReader in parse_response")
+        c["bufReaderCap"] = 8192      # std's DEFAULT_BUF_SIZE
+    cargo = read(repo, "Cargo.toml")
+    m = need(re.search(r'^version\s*=\s*"([^"]+)"', cargo, flags=re.M), "package version")
+    c["pkgVersion"] = m.group(1)
     # --- decision tables and defaults -------------------------------------------------------------
     reqmod = strip_comments(read(repo, "src/request/mod.rs"))
     send = fn_body(reqmod, "send")
